@@ -374,12 +374,29 @@ func (x *MMan) artifactType() string {
 	return ""
 }
 
-// isChildOfPresent reports whether d is listed as a child by some present index manifest.
+// isChildOfPresent reports whether d is listed as a child by some present index manifest, directly or through nested
+// indexes - also deleted ones whose blob is still there: the server walks the files, not the API history.
 func (r *MRepo) isChildOfPresent(d string) bool {
+	seen := map[string]bool{}
+	var stack []string
 	for _, x := range r.mans {
-		for _, c := range x.view.children {
-			if c == d {
-				return true
+		stack = append(stack, x.view.children...)
+	}
+	for len(stack) > 0 {
+		c := stack[len(stack)-1]
+		stack = stack[:len(stack)-1]
+		if c == d {
+			return true
+		}
+		if seen[c] {
+			continue
+		}
+		seen[c] = true
+		if x, ok := r.mans[c]; ok {
+			stack = append(stack, x.view.children...)
+		} else if b, ok := r.blobs[c]; ok {
+			if v := parseManifest(b.data); v.ok && v.shape == "index" {
+				stack = append(stack, v.children...)
 			}
 		}
 	}
